@@ -262,3 +262,11 @@ func Harness_C01_r_stmt_match_value() {
 	verifAssert(got == a+2 && sameObs(og, obs{[]int{w}, []string{"after"}}), "r_stmt_strmatch_value: the same for a string match")
 	verifCover("end")
 }
+
+func Harness_C01_r_not_chain() {
+	a, b := verifBool("a"), verifBool("b")
+	c := verifInt("c")
+	t := r_not_chain(a, b, c)
+	verifAssert(t.E0 == (!a && b) && t.E1 == ((!a || !b) && a) && t.E2 == (!(c > 1) && b), "r_not_chain: not applies to one term; && and || share a rank and group to the left")
+	verifCover("end")
+}
